@@ -70,6 +70,17 @@ def _clean():
     span_token.reset_tokens()
 
 
+# Directed members of the generated domain: the minimal input of every root-cause class that the
+# enumeration found on the pinned tree, so that each class is exercised whatever the seed.
+DIRECTED = [
+    ('free', '```\n```\n'), ('free', '    \na\n'), ('free', '*\n\na\n'), ('free', '|\n---: |\na\\|b |\n'),
+    ('free', '|\n---:|\na|  |\n'), ('free', ' -    one\n\n     two\n'), ('free', '-\n  ---\n'), ('free', '-\n--\n'),
+    ('free', '> - ##\n> \n>      a\n  a\n'), ('free', '##   #\n'), ('free', '**``` [l](u) ```****__star*red__**\n'),
+    ('free', '    a\n      \n    b\n'), ('free', '- ```\n  a\n\n  ```\n'), ('normal', '* a\n\n\na\n'),
+    ('normal', '1. a\n\n   b\n\n\n\nc\n'),
+]
+
+
 def html_of(text):
     _clean()
     with HtmlRenderer() as h:
@@ -189,6 +200,8 @@ def work(job):
     for case in chunk:
         if case[0] == 'spec':
             tree, x, normal, ident = None, case[2], False, 'spec:%d' % case[1]
+        elif case[0] == 'directed':
+            tree, x, normal, ident = None, case[2], case[3] == 'normal', 'directed:%d' % case[1]
         else:
             tree, x = mdgen.gen(case[2], case[1])
             normal, ident = case[1] == 'normal', 'gen:%s:%d' % (case[1], case[2])
@@ -223,7 +236,7 @@ def work(job):
                         observed, expected = again[0][1], again[0][2]
                     else:
                         mx = x
-                if tree is None:
+                if case[0] == 'spec':
                     key = '%s|%s|nw=%s' % (contract, ident, nw)
                     cls = SPEC_CLASS.get(case[1])
                 else:
@@ -289,6 +302,7 @@ def run(tier, seed, workers):
     n_free, n_normal = (10000, 5000) if tier == 'quick' else (200000, 80000)
     base = seed * 10_000_000
     cases = [('spec', e['example'], e['markdown']) for e in spec_examples()]
+    cases += [('directed', i, text, mode) for i, (mode, text) in enumerate(DIRECTED)]
     cases += [('gen', 'free', base + i) for i in range(n_free)]
     cases += [('gen', 'normal', base + i) for i in range(n_normal)]
     chunks = [cases[i:i + CHUNK] for i in range(0, len(cases), CHUNK)]
@@ -344,13 +358,14 @@ def run(tier, seed, workers):
     for f in sorted(failures.values(), key=order):
         minimal.setdefault(f['class'], {'contract': f['contract'], 'key': f['key'], 'input': f['input']})
     out.update({
-        'domain': ('SPEC: the 652 CommonMark 0.30 examples; DOCS: %d mdgen documents in mode free '
+        'domain': ('SPEC: the 652 CommonMark 0.30 examples; %d directed documents (one per known root-cause '
+                   'class, seed-independent); DOCS: %d mdgen documents in mode free '
                    '(every block/inline construct, canonical and non-canonical spellings, container '
                    'nesting <= 4, measured max depth %d) + %d in mode normal (renderer normal form), '
                    'generator seeds %d.. ; each x normalize_whitespace in {False, True}. Excluded by '
                    'construction: character references, backslashes in link destinations/titles, '
                    'paragraph continuation lines indented >= 4, tabs, non-\\n line separators'
-                   % (n_free, maxdepth, n_normal, base)),
+                   % (len(DIRECTED), n_free, maxdepth, n_normal, base)),
         'rule': ('seeded structural generation (runtime/mdgen.py); a case is non-trivial iff the '
                  'HTML of x contains an element other than <p>; distinct_nontrivial counts distinct '
                  'such documents; contracts per case: noraise, c09a, c09b (+ c09c for mode normal, nw=False)'),
